@@ -7,6 +7,7 @@ import (
 	"errors"
 	"fmt"
 	"sort"
+	"sync"
 	"testing"
 	"time"
 
@@ -762,7 +763,7 @@ var subPublic = ev.Sub[PublicCase]{Name: "public", Q: 200, T: 5000,
 func TestPublic(t *testing.T) { subPublic.Check(t) }
 
 func TestReplay(t *testing.T) {
-	ev.ReplayTest(t, subDelivery, subLimit, subGarbage, subGarbagePublic, subPublic, subExpiry)
+	ev.ReplayTest(t, subDelivery, subLimit, subGarbage, subGarbagePublic, subPublic, subExpiry, subConc)
 }
 
 var _ = sort.Ints
@@ -854,3 +855,102 @@ func TestDefaultExpiry(t *testing.T) {
 	subExpiry.One(t, ExpiryCase{GapMs: 1300})
 	subExpiry.One(t, ExpiryCase{GapMs: 1300, ExpiryMs: 10, StartMs: 1200})
 }
+
+// ---------------------------------------------------------------------------------------------
+// concurrent unreliable writers through one transport: the segments of different messages interleave on the wire, every message
+// still gets its own sequence number and is reassembled exactly (seeded change C14/m6: two concurrent writers could draw the
+// same sequence number; their segments then met in one read buffer)
+
+type ConcCase struct {
+	Writers   int `json:"writers"`
+	PerWriter int `json:"per_writer"`
+	Segs      int `json:"segs"` // segments per message (2..5)
+}
+
+func runConc(c ConcCase, k *ev.Case) *ev.Failure {
+	a, b := fakequic.Pair(nil)
+	ta, err := tquic.New(tquic.Config{Connection: a})
+	if err != nil {
+		return ev.Failf("harness", "quic.New: %v", err)
+	}
+	tb, err := tquic.New(tquic.Config{Connection: b})
+	if err != nil {
+		return ev.Failf("harness", "quic.New: %v", err)
+	}
+	defer ta.Close()
+	defer tb.Close()
+	ua, _ := ta.AsUnreliable()
+	ub, _ := tb.AsUnreliable()
+	total := c.Writers * c.PerWriter
+	want := map[string]bool{}
+	bodies := make([][][]byte, c.Writers)
+	for w := 0; w < c.Writers; w++ {
+		for i := 0; i < c.PerWriter; i++ {
+			m := body(w*1000+i, c.Segs*P-7-w)
+			bodies[w] = append(bodies[w], m)
+			want[string(m)] = true
+		}
+	}
+	var got [][]byte
+	done := make(chan struct{})
+	go func() {
+		defer close(done)
+		for len(got) < total {
+			m, err := ub.Read()
+			if err != nil {
+				return
+			}
+			got = append(got, m)
+		}
+	}()
+	var wg sync.WaitGroup
+	var werr error
+	var wmu sync.Mutex
+	for w := 0; w < c.Writers; w++ {
+		wg.Add(1)
+		go func(w int) {
+			defer wg.Done()
+			for _, m := range bodies[w] {
+				if err := ua.Write(m); err != nil {
+					wmu.Lock()
+					werr = err
+					wmu.Unlock()
+					return
+				}
+			}
+		}(w)
+	}
+	wg.Wait()
+	if werr != nil {
+		return ev.Failf("C14.4 sender-refused", "concurrent unreliable Write: %v", werr)
+	}
+	select {
+	case <-done:
+	case <-time.After(3 * time.Second):
+	}
+	tb.Close()
+	<-done
+	seen := map[string]int{}
+	for _, m := range got {
+		if !want[string(m)] {
+			return ev.Failf("C14.1 mixed-message", "%d writers x %d messages of %d segments over a loss-free link: a %d-byte message was handed up that nobody sent (segments of different messages met in one buffer)", c.Writers, c.PerWriter, c.Segs, len(m))
+		}
+		seen[string(m)]++
+		if seen[string(m)] > 1 {
+			return ev.Failf("C14.2 duplicate", "a message was handed up twice")
+		}
+	}
+	if len(got) != total {
+		return ev.Failf("C14.1 not-reassembled", "%d writers x %d messages of %d segments over a loss-free in-order link: %d of %d messages were handed up", c.Writers, c.PerWriter, c.Segs, len(got), total)
+	}
+	k.NonTrivial(ev.JSON(c))
+	k.Sample(func() any { return c })
+	return nil
+}
+
+var subConc = ev.Sub[ConcCase]{Name: "concurrent-writers", Q: 30, T: 600,
+	Gen: func(t *rapid.T) ConcCase {
+		return ConcCase{Writers: rapid.SampledFrom([]int{2, 4, 8, 16}).Draw(t, "writers"), PerWriter: rapid.IntRange(5, 60).Draw(t, "per"), Segs: rapid.IntRange(2, 5).Draw(t, "segs")}
+	}, Run: runConc}
+
+func TestConcurrentWriters(t *testing.T) { subConc.Check(t) }
